@@ -880,6 +880,12 @@ func jsonLines(r *rng, n int, thorough bool) []jsonLine {
 	for i := 0; i < nTrail; i++ {
 		d := jgSmallDoc(r)
 		add(append(d, jgTrailers[r.intn(len(jgTrailers))]...), "trailing")
+		if i%4 == 0 {
+			// the same trailer far behind the object: beyond what a decoder has buffered when it meets the closing brace
+			// (encoding/json reads 512 bytes, then doubles)
+			pad := strings.Repeat([]string{" ", "\t", " \r"}[r.intn(3)], []int{505, 512, 600, 1100, 5000}[r.intn(5)])
+			add(append(append(append([]byte(nil), d...), pad...), jgTrailers[r.intn(len(jgTrailers))]...), "trailing/far")
+		}
 	}
 	for i := 0; i < nTrunc; i++ {
 		d := jgSmallDoc(r)
